@@ -264,6 +264,10 @@ DUMP_DEFS = [
     ("struct S { uint16 a; void v; char b[2]; };", "random", False, True),
     ("struct S { uint8 a; struct { uint8 x; uint8 y; }; uint8 z; uint8 many[50]; };", "random", False, False),
     ("struct S { uint8 a; uint8 *p; int16 q[3]; uint64 big[4]; };", "random", False, False),
+    # inputs that differ from what the structure dumps to: bits no bit-field declares, alignment padding
+    ("struct S { uint16 a:4; uint16 b:5; uint8 c; uint32 d:3; uint8 e; };", "random", True, False),
+    ("struct S { uint8 a; uint32 b; uint8 c; uint16 d; uint8 e; };", "random+align", False, False),
+    ("struct S { uint8 a; uint16 f:3; uint64 g; char t[3]; };", "random+align", True, False),
 ]
 
 
@@ -345,12 +349,16 @@ def dumpstruct_params(env, res, U, dc, viol, lines=None, metas=None):
     for text, how, has_bits, has_void in DUMP_DEFS:
         for compiled in (False, True):
             cs = dc.cstruct()
-            cs.load(text, compiled=compiled)
+            cs.load(text, compiled=compiled, align=how.endswith("+align"))
             for _ in range(rounds):
-                data = make_data(rnd, how)
+                data = make_data(rnd, how.split("+")[0])
                 try:
-                    obj = cs.S(io.BytesIO(data))  # from a stream: S(bytes) of a lone char array is value initialisation, not parsing
+                    fh = io.BytesIO(data)
+                    obj = cs.S(fh)  # from a stream: S(bytes) of a lone char array is value initialisation, not parsing
                     raw = obj.dumps()
+                    # the bytes the structure was parsed from: they differ from obj.dumps() where the input has non-zero padding or
+                    # bits no bit-field declares; dumpstruct(S, data) must show THEM (it dumps the data it was given)
+                    given = data[:fh.tell()]
                 except Exception:  # noqa: BLE001   parsing / writing belongs to other properties
                     res.feat("dumpstruct-params:skipped-unparsable")
                     continue
@@ -373,7 +381,7 @@ def dumpstruct_params(env, res, U, dc, viol, lines=None, metas=None):
                     res.feat("dumpstruct-params:" + mode + ":" + form)
 
                     def dump(color_, mode_=mode, form_=form, offset_=offset):
-                        args = (obj,) if form_ == "instance" else (cs.S, raw)
+                        args = (obj,) if form_ == "instance" else (cs.S, given)
                         if mode_ == "print":
                             buf = io.StringIO()
                             with contextlib.redirect_stdout(buf):
@@ -386,13 +394,16 @@ def dumpstruct_params(env, res, U, dc, viol, lines=None, metas=None):
 
                     try:
                         out = dump(color)
-                        plain = dump(False, "string", "instance")
+                        # (the two call forms show the same bytes only when the input is what the structure dumps to)
+                        plain = dump(False, "string", "instance" if given == raw else form)
+                        if given != raw:
+                            res.feat("dumpstruct-params:input-differs-from-dumps:" + form)
                     except Exception as ex:  # noqa: BLE001
                         viol(f"dumpstruct(offset={offset}, color={color}, output={mode!r}, {form}) raised {type(ex).__name__}: {ex}", case)
                         continue
                     if lines is not None and offset >= 0:
                         try:
-                            lines.append(dumpstruct_model_line(obj, raw, offset, color))
+                            lines.append(dumpstruct_model_line(obj, raw if form == "instance" else given, offset, color))
                             metas.append(("dumpstruct", case, (out,)))
                         except Exception:  # noqa: BLE001   a structure the line cannot describe is not sent
                             res.feat("dumpstruct-params:not-sent-to-the-model")
@@ -404,7 +415,7 @@ def dumpstruct_params(env, res, U, dc, viol, lines=None, metas=None):
                              "the colour codes", case)
                         continue
                     hexpart, _, listing = txt.strip("\n").partition("\n\n")
-                    err = plain_lines_error(hexpart.split("\n") if hexpart else [], raw, offset)
+                    err = plain_lines_error(hexpart.split("\n") if hexpart else [], raw if form == "instance" else given, offset)
                     if err:
                         viol(f"dumpstruct's hex dump is not a dump of exactly the structure's bytes at offset {offset}: {err}", case)
                         continue
